@@ -128,11 +128,11 @@ theorem ssz_methods_agree : ∀ T ∈ types, checkType owners views T = none := 
   simpa [Option.isNone_iff_eq_none] using this
 
 open Zrnt.Schema Zrnt.Schema.Facts in
-/-- What "limits agree" in `ssz_methods_agree` means: two division-free length expressions that `checkType`
-accepts as the same (`sameLen`) have the same value under **every** configuration, not only at the presets. -/
-theorem limits_agree_for_all_configs (a b : LExpr) (ha : noDiv a = true) (hb : noDiv b = true)
-    (h : sameLen a b = true) (c : Config) : a.eval c = b.eval c :=
-  sameLen_sound a b ha hb h c
+/-- What "limits agree" in `ssz_methods_agree` means: two length expressions that `checkType` accepts as the
+same (`sameLen`: equal polynomial normal forms, quotients as atoms) have the same value under **every**
+configuration, not only at the presets. -/
+theorem limits_agree_for_all_configs (a b : LExpr) (h : sameLen a b = true) (c : Config) : a.eval c = b.eval c :=
+  sameLen_sound a b h c
 
 open Zrnt.Schema Zrnt.Schema.Facts Zrnt.Gen.SszFacts in
 /-- **The Go SSZ types are exactly the schema's entries**: every Go type with the SSZ method set has a
